@@ -840,7 +840,11 @@ func range_(thread *Thread, b *Builtin, args Tuple, kwargs []Tuple) (Value, erro
 		return nil, nameErr(b, "step argument must not be zero")
 	}
 
-	return rangeValue{start: start, stop: stop, step: step, len: rangeLen(start, stop, step)}, nil
+	n, ok := rangeLen(start, stop, step)
+	if !ok {
+		return nil, nameErr(b, "too many elements")
+	}
+	return rangeValue{start: start, stop: stop, step: step, len: n}, nil
 }
 
 // A rangeValue is a comparable, immutable, indexable sequence of integers
@@ -862,31 +866,38 @@ func (r rangeValue) Iterate() Iterator { return &rangeIterator{r, 0} }
 
 // rangeLen calculates the length of a range with the provided start, stop, and step.
 // caller must ensure that step is non-zero.
-func rangeLen(start, stop, step int) int {
+// The result is exact even if stop-start overflows int;
+// ok is false if the length itself is not representable as an int.
+func rangeLen(start, stop, step int) (n int, ok bool) {
+	var un uint // the difference of two ints always fits in a uint
 	switch {
 	case step > 0:
 		if stop > start {
-			return (stop-1-start)/step + 1
+			un = (uint(stop)-uint(start)-1)/uint(step) + 1
 		}
 	case step < 0:
 		if start > stop {
-			return (start-1-stop)/-step + 1
+			un = (uint(start)-uint(stop)-1)/-uint(step) + 1
 		}
 	default:
 		panic("rangeLen: zero step")
 	}
-	return 0
+	if un > math.MaxInt {
+		return 0, false
+	}
+	return int(un), true
 }
 
 func (r rangeValue) Slice(start, end, step int) Value {
 	newStart := r.start + r.step*start
 	newStop := r.start + r.step*end
 	newStep := r.step * step
+	n, _ := rangeLen(newStart, newStop, newStep) // a slice is never longer than its operand
 	return rangeValue{
 		start: newStart,
 		stop:  newStop,
 		step:  newStep,
-		len:   rangeLen(newStart, newStop, newStep),
+		len:   n,
 	}
 }
 
@@ -917,6 +928,9 @@ func (x rangeValue) CompareSameType(op syntax.Token, y_ Value, depth int) (bool,
 }
 
 func (r rangeValue) Has(y Value) (bool, error) {
+	if f, ok := y.(Float); ok && f != Float(math.Trunc(float64(f))) {
+		return false, nil // non-integral (or NaN): equal to no element
+	}
 	i, err := NumberToInt(y)
 	if err != nil {
 		return false, fmt.Errorf("'in <range>' requires integer as left operand, not %s", y.Type())
